@@ -4,7 +4,7 @@
    thread-local systems; a batch that lets an inner panic through is a panicking member of
    its own level), p = a panic reaches the caller.  All interleavings of the groups of a stage;
    sibling groups of a panicking group complete, or stop at their own panic, or never start. *)
-From Shred Require Import Base Plan PlanLemmas Exec ExecProps Fault FaultProps.
+From Shred Require Import Base Plan PlanLemmas Exec ExecProps Fault FaultProps FaultAccept FaultComplete.
 
 (* the caller sees a panic exactly when some system really panicked in this dispatch (the
    payload is that of one of the FP events of the trace) *)
@@ -48,6 +48,13 @@ Theorem C14_next_dispatch_is_ordinary :
   forall l tl t p, ftraces_disp [] l tl t p -> p = false /\ exists t0, traces_disp l tl t0 /\ t = map erase t0.
 Proof. exact fault_free_is_ordinary. Qed.
 Print Assumptions C14_next_dispatch_is_ordinary.
+
+(* the acceptor that suite S2 runs on every recorded faulty trace accepts EXACTLY the faulty traces of the model *)
+Theorem C14_faulty_trace_acceptor_decides_the_faulty_trace_set :
+  forall F l tl tr, NoDup (concat (concat l) ++ tl) ->
+  (faccept_disp F l tl tr = true <-> exists p, ftraces_disp F l tl tr p).
+Proof. exact faccept_iff. Qed.
+Print Assumptions C14_faulty_trace_acceptor_decides_the_faulty_trace_set.
 
 Example C14_example :
   (* stage {1(panics) ‖ 2}, stage {3}, thread-local 9: 2 completes, 3 and 9 never start *)
